@@ -35,6 +35,10 @@ type WBatch struct {
 	CallErr  error
 	Recv     []AckObs
 	quit     chan struct{}
+	// recvActive is set by the receiver goroutine of an unbuffered channel right
+	// before its first receive: while it is 0 no send on the channel can have
+	// completed, so the batch is certainly unanswered.
+	recvActive int32
 }
 
 func (b *WBatch) values() []AckObs {
@@ -91,6 +95,7 @@ func (ab *AckBook) NewBatch(kind, chanKind string, n, parts int, recvDelay ...ti
 					return
 				}
 			}
+			atomic.StoreInt32(&b.recvActive, 1)
 			for {
 				select {
 				case err := <-b.Ch:
